@@ -236,42 +236,47 @@ def check(ctx, run):
     ok = len(frees) == 2 and frees[0].startswith("allocator_->free_memory(%s->memory_, %s," % (b_, s_)) and "(char *)%s" % b_ in frees[1] and "sizeof(SimpleStringMemoryBlock)" in frees[1]
     run.ob("R3", "destroying a block frees its buffer (with the size) and then its header, once each", db.site, ok, witness=frees)
 
-    def fold_clear(f):
+    def fold_clear(f, free_empty=(), used_empty=()):
         lists = {}
         for i in range(ncls):
-            lists["cache_[%d].freeMemoryHead_" % i] = [10 * (i + 1) + 1, 10 * (i + 1) + 2]
-            lists["cache_[%d].usedMemoryHead_" % i] = [10 * (i + 1) + 5]
+            lists["cache_[%d].freeMemoryHead_" % i] = [] if i in free_empty else [10 * (i + 1) + 1, 10 * (i + 1) + 2]
+            lists["cache_[%d].usedMemoryHead_" % i] = [] if i in used_empty else [10 * (i + 1) + 5]
         lists["nonCachedAllocations_"] = [91, 92]
         env = blocks_env(lists)
+        for k_, v_ in lists.items():
+            if not v_:
+                env[k_] = 0
         env.update(cenv)
         env["cache_"] = ("ptr", "cache_", 0)
         ev = Evaluator(prog, f, env=env)
         ev.heap_mode = True
         calls = []
         ev.calls[CA + "::destroySimpleStringMemoryBlockList"] = lambda h, s: (calls.append((h, s)), 0)[1]
-        ev.run_blocks(f.entry, max_steps=800)
-        return ev.env, calls
-    try:
-        env, calls = fold_clear(cc)
-        want = [(10 * (i + 1) + 1, sizes[i]) for i in range(ncls)]
-        heads = [env.get("cache_[%d].freeMemoryHead_" % i) for i in range(ncls)]
-        used = [env.get("cache_[%d].usedMemoryHead_" % i) for i in range(ncls)]
-        ok = sorted(calls) == sorted(want) and heads == [0] * ncls and used == [10 * (i + 1) + 5 for i in range(ncls)] and env.get("nonCachedAllocations_") == 91
-        why = "" if ok else "destroyed %s, free heads afterwards %s (a destroyed list that keeps its head is handed out again)" % (calls, heads)
-    except Unknown as u:
-        run.broke("clearCache cannot be folded (%s): restructured beyond what R3 decides" % u)
-        ok, calls, heads, why = True, None, None, ""
-    run.ob("R3", "clearCache destroys the free list of every class with its class size, resets every free head, leaves used buffers alone", cc.site, ok, witness={"destroyed": calls, "free_heads_after": heads}, what=why)
-    try:
-        env, calls = fold_clear(ca_)
-        want = [(10 * (i + 1) + 1, sizes[i]) for i in range(ncls)] + [(10 * (i + 1) + 5, sizes[i]) for i in range(ncls)] + [(91, 0)]
-        heads = [env.get("cache_[%d].freeMemoryHead_" % i) for i in range(ncls)] + [env.get("cache_[%d].usedMemoryHead_" % i) for i in range(ncls)] + [env.get("nonCachedAllocations_")]
-        ok = sorted(calls) == sorted(want) and all(h == 0 for h in heads)
-        why = "" if ok else "destroyed %s, heads afterwards %s" % (calls, heads)
-    except Unknown as u:
-        run.broke("clearAllIncludingCurrentlyUsedMemory cannot be folded (%s): restructured beyond what R3 decides" % u)
-        ok, calls, heads, why = True, None, None, ""
-    run.ob("R3", "clearAllIncludingCurrentlyUsedMemory destroys free, used and non-cached lists of everything and resets every head", ca_.site, ok, witness={"destroyed": calls}, what=why)
+        ev.run_blocks(f.entry, max_steps=1500)
+        return ev.env, [c_ for c_ in calls if c_[0] != 0]      # (destroying an empty list is a no-op)
+    EMPTY = [(), (0,), (ncls // 2,), (ncls - 1,), tuple(range(ncls)), tuple(range(0, ncls, 2)), tuple(range(1, ncls, 2))]
+    for f_, everything, label in ((cc, False, "clearCache destroys the free list of every class with its class size, resets every free head, leaves used buffers alone"),
+                                  (ca_, True, "clearAllIncludingCurrentlyUsedMemory destroys free, used and non-cached lists of everything and resets every head")):
+        bad, ncase = None, 0
+        try:
+            for fe in EMPTY:
+                for ue in ((), (0,), tuple(range(ncls))):
+                    ncase += 1
+                    env, calls = fold_clear(f_, fe, ue)
+                    want = [(10 * (i + 1) + 1, sizes[i]) for i in range(ncls) if i not in fe]
+                    heads = [env.get("cache_[%d].freeMemoryHead_" % i) for i in range(ncls)]
+                    used = [env.get("cache_[%d].usedMemoryHead_" % i) for i in range(ncls)]
+                    if everything:
+                        want += [(10 * (i + 1) + 5, sizes[i]) for i in range(ncls) if i not in ue] + [(91, 0)]
+                        good = sorted(calls) == sorted(want) and all(h == 0 for h in heads + used) and env.get("nonCachedAllocations_") == 0
+                    else:
+                        good = sorted(calls) == sorted(want) and heads == [0] * ncls and used == [0 if i in ue else 10 * (i + 1) + 5 for i in range(ncls)] and env.get("nonCachedAllocations_") == 91
+                    if not good and bad is None:
+                        bad = "classes with an empty free list %s / empty used list %s: destroys %s, expected %s; free heads afterwards %s (a destroyed list that keeps its head is handed out again, a list that is skipped is never returned to the allocator)" % (list(fe), list(ue), sorted(calls), sorted(want), heads)
+        except Unknown as u:
+            run.broke("%s cannot be folded (%s): restructured beyond what R3 decides" % (f_.name, u))
+            continue
+        run.ob("R3", label + " (folded over %d patterns of empty and non-empty lists)" % ncase, f_.site, bad is None, witness=bad or "%d patterns" % ncase, what=bad or "")
 
     # ---------------- R4 ----------------------------------------------------
     al = prog.fn(CA + "::alloc")
